@@ -155,35 +155,25 @@ def decode_domains(flat, labels):
     return out
 
 
-FINDING_CLASS = "more_than_two_carrier_proteins"     # spec verdict [2]
+# No finding class is recorded for this property any more, nothing is suppressed.  more_than_two_carrier_proteins
+# (known_findings.json F52, spec verdict [2]) is repaired in /repo: Module.ensure_suitable refuses a carrier protein
+# when the module already holds the extra one of the documented double-transporter case.  Its witness heads the
+# regression corpus; if a third carrier protein is accepted again, the check reports a counterexample.
+REPAIRED_CLASS = "more_than_two_carrier_proteins"    # spec verdict [2], kept as a diagnosis of the violated clause
 WITNESS = ["PKS_KS", "ACP", "ACP", "LPG_synthase_C", "Beta_elim_lyase", "ACP", "LPG_synthase_C", "Beta_elim_lyase"]
 
 
-def spec_pass(chk, cases, impl_outs, model_outs, describe, witness_index=None):
+def spec_pass(chk, cases, impl_outs, model_outs, describe):
     """ the specification (partition, layout rules, slots/flags as functions of the components, merge and
         reload clauses - Model.v spec_fn1/2/3) is evaluated on EVERY implementation output; a violated
         clause is reported with the failing input.  Verdict [2] = only the clause "no more than two carrier
-        proteins" fails: suppressed only while that class is recorded as known AND the implementation still
-        behaves exactly as the (faithful) model on the case """
+        proteins" fails (the repaired finding F52): a violation like any other, nothing is suppressed """
     spec_cases = [[c[0], c[1] + SPEC_OFFSET] + c[2:] + o for c, o in zip(cases, impl_outs)]
     verdicts = common.run_driver(spec_cases)
     chk.extra["spec_evaluated_on_implementation_outputs"] = len(verdicts)
-    listed = [f for f in common.load_known_findings(chk.prop)
-              if f.get("class") == FINDING_CLASS and f.get("status") == "known"]
-    bad = []
-    in_class = 0
-    for i, verdict in enumerate(verdicts):
-        if verdict == [1]:
-            continue
-        if verdict == [2] and listed and impl_outs[i] == model_outs[i]:
-            in_class += 1
-            continue
-        bad.append(i)
+    bad = [i for i, verdict in enumerate(verdicts) if verdict != [1]]
     chk.extra["spec_violations"] = len(bad)
-    chk.extra["cases_in_known_finding_class_" + FINDING_CLASS] = in_class
-    if listed and witness_index is not None and verdicts[witness_index] == [2] \
-            and impl_outs[witness_index] == model_outs[witness_index]:
-        chk.known(f"class={FINDING_CLASS} {listed[0]['what_fails']}")
+    chk.extra["spec_violations_" + REPAIRED_CLASS] = sum(1 for i in bad if verdicts[i] == [2])
     if not bad:
         return
     bad.sort(key=lambda i: len(cases[i]))
@@ -199,7 +189,7 @@ def spec_pass(chk, cases, impl_outs, model_outs, describe, witness_index=None):
                 2: "module rebuilt from its saved form differs (or build output violates the rules)",
                 3: "combine_modules output violates the merge/layout/reload rules"}[cases[first][1]]
         if verdicts[first] == [2]:
-            what += " (more than two carrier proteins in one module)"
+            what += " (more than two carrier proteins in one module: repaired finding class %s is back)" % REPAIRED_CLASS
         chk.violation("counterexample", what, replay)
 
 
@@ -272,6 +262,10 @@ class Gen:
             ["PKS_KS", "PKS_AT", "ACP", "ACP", "LPG_synthase_C", "Beta_elim_lyase", "Thioesterase"],
             ["PKS_KS", "ACP", "ACP", "LPG_synthase_C", "NRPS-COM_Nterm", "Beta_elim_lyase"],
             ["PKS_KS", "ACP", "ACP", "LPG_synthase_C"], ["Trans-AT_docking", "ACP", "PKS_KR", "TIGR01720"],
+            # a third (fourth) carrier protein followed by the registered pair again: refused since the repair of F52
+            ["PKS_KS", "ACP", "ACP", "LPG_synthase_C", "Beta_elim_lyase", "ACP", "LPG_synthase_C", "Beta_elim_lyase"],
+            ["PKS_KS", "PKS_AT", "PCP", "ACP", "LPG_synthase_C", "Beta_elim_lyase", "ACP", "LPG_synthase_C",
+             "Beta_elim_lyase", "ACP", "LPG_synthase_C", "Beta_elim_lyase", "Thioesterase"],
         ])
         specs = []
         start = 0
@@ -299,10 +293,17 @@ def run(chk):
     # regression corpus: witness of the repaired combine_modules defect (known_findings.json F22)
     corpus = [(3, ([(ix["PKS_KS"], 1, 0, 10)],
                    [(ix["ACP"], 0, 1, 10), (ix["Thioesterase"], 0, 2, 30), (ix["PKS_KR"], 0, 3, 50)], True)),
-              # witness of the recorded finding: three carrier proteins in one module
+              # witness of the repaired finding F52 (more_than_two_carrier_proteins): KS ACP ACP LPG Beta ACP LPG Beta
+              # was ONE module with three carrier proteins, now [KS,CP,CP,+,+] [CP] [+,+]; with a loader (complete
+              # module), with a fourth carrier protein, and split over two genes
               (2, ([(ix[name], 0, k, 10 * (k + 1)) for k, name in enumerate(WITNESS)],)),
+              (1, ([(ix[name], 0, k, 10 * (k + 1)) for k, name in enumerate(WITNESS)],)),
+              (2, ([(ix[name], 0, k, 10 * (k + 1)) for k, name in enumerate(WITNESS[:1] + ["PKS_AT"] + WITNESS[1:])],)),
+              (2, ([(ix[name], 0, k, 10 * (k + 1)) for k, name in enumerate(WITNESS + WITNESS[5:])],)),
               (3, ([(ix[name], 0, k, 10 * (k + 1)) for k, name in enumerate(WITNESS[:3])],
-                   [(ix[name], 0, 3 + k, 10 * (k + 1)) for k, name in enumerate(WITNESS[3:])], True))]
+                   [(ix[name], 0, 3 + k, 10 * (k + 1)) for k, name in enumerate(WITNESS[3:])], True)),
+              (3, ([(ix[name], 0, k, 10 * (k + 1)) for k, name in enumerate(WITNESS[:1])],
+                   [(ix[name], 0, 1 + k, 10 * (k + 1)) for k, name in enumerate(WITNESS[1:])], True))]
     for i in range(total):
         r = chk.rng.random()
         if i < len(corpus):
@@ -338,7 +339,7 @@ def run(chk):
     describe = lambda flat: {"function": flat[1], "payload": flat[2:],
                              "domains": decode_domains(flat, labels)}
     model_outs = common.correspondence(chk, cases, impl_outs, spec_fn_offset=SPEC_OFFSET, describe=describe)
-    spec_pass(chk, cases, impl_outs, model_outs, describe, witness_index=1)
+    spec_pass(chk, cases, impl_outs, model_outs, describe)
     chk.crosscheck_vm(cases, model_outs)
     return chk.finish(RULE)
 
